@@ -373,13 +373,17 @@ structure Program where
   deletion : Sched
   deriving Repr, DecidableEq
 
-def getProgram (src : Str) : Except Err Program :=
-  match centrifugate (prepare src) with
+/-- `get_program` from the prepared text on: centrifugate, collect, remove. -/
+def getProgramFrom (text : Str) : Except Err Program :=
+  match centrifugate text with
   | .error e => .error e
   | .ok c =>
     match collectHints c with
     | .error e => .error e
     | .ok (a, d) => .ok ⟨removeHints c, a, d⟩
+
+/-- `get_program(source)`. -/
+def getProgram (src : Str) : Except Err Program := getProgramFrom (prepare src)
 
 /-- Number of lines of a listing (`text.count("\n") + 1`). -/
 def lineCount (s : Str) : Nat := (splitNL s).length
